@@ -64,7 +64,7 @@ impl Out {
     }
     /// The implementation's output failed the property's direct oracle
     pub fn oracle_fail(&mut self, what: &str, replay: &str) {
-        writeln!(self.w, "#ORACLE-FAIL\t{}\t{}", what, replay).unwrap();
+        writeln!(self.w, "#ORACLE-FAIL\t{}\t{}", what.replace('\n', " ").replace('\t', " "), replay.replace('\n', "\\n").replace('\t', " ")).unwrap();
     }
     pub fn stat(&mut self, key: &str, value: impl std::fmt::Display) {
         writeln!(self.w, "#STAT\t{}\t{}", key, value).unwrap();
